@@ -98,6 +98,30 @@ func render(vm *goja.Runtime, v goja.Value, depth int) string {
 	return obj.ClassName() + "{" + strings.Join(parts, ",") + "}"
 }
 
+// prelude runs on both sides before the program and never passes through xjs.
+// goja's native Array.prototype.join has no cycle detection: an array that
+// contains itself, converted to a string, recurses until the Go stack is
+// exhausted (a fatal error that cannot be recovered).  The prelude installs a
+// join that treats a cyclic reference as the empty string, as V8 does.
+const prelude = `(function () {
+  var active = [];
+  Object.defineProperty(Array.prototype, "join", {writable: true, configurable: true, enumerable: false, value: function (sep) {
+    if (active.indexOf(this) >= 0) return "";
+    active.push(this);
+    try {
+      var s = sep === undefined ? "," : String(sep), out = "", n = this.length >>> 0;
+      for (var i = 0; i < n; i++) {
+        if (i) out += s;
+        var v = this[i];
+        if (v !== undefined && v !== null) out += String(v);
+      }
+      return out;
+    } finally { active.pop(); }
+  }});
+})();`
+
+var preludeProg = goja.MustCompile("prelude", prelude, false)
+
 // Run executes code on a fresh runtime.
 func Run(code string) (res Result) {
 	defer func() {
@@ -118,6 +142,10 @@ func Run(code string) (res Result) {
 		}
 		return goja.Undefined()
 	})
+	vm.SetMaxCallStackSize(2000)
+	if _, err := vm.RunProgram(preludeProg); err != nil {
+		panic("jsrun prelude: " + err.Error())
+	}
 	prog, err := goja.Compile("", code, false)
 	if err != nil {
 		return Result{Completion: "SyntaxError", Detail: err.Error()}
